@@ -9,6 +9,7 @@ import (
 	"sort"
 	"strings"
 	"testing"
+	"time"
 
 	"pgregory.net/rapid"
 
@@ -19,6 +20,9 @@ import (
 )
 
 func TestMain(m *testing.M) {
+	if s := run.EnvInt("VERIF_C18_TIMEOUT_S", 0); s > 0 {
+		caseTimeout = time.Duration(s) * time.Second // self-test of the watchdog with a short bound
+	}
 	run.Quiet()
 	os.Exit(m.Run())
 }
@@ -54,7 +58,24 @@ func TestC18Inputs(t *testing.T) {
 			if survey {
 				fmt.Printf("\nC18-INPUT %s %s\n", in.Tier, classOf(in))
 			}
-			v, ir := p.runInput(in)
+			var v *verdict
+			var ir inputResult
+			if !guarded(caseTimeout, func() { v, ir = p.runInput(in) }) {
+				// the calls did not come back: same case once more on fresh nodes with twice the bound
+				h.Class("timeout-first-run", 1)
+				p2, hung, v2, err := rerunInputs(c.Seed, o, c.Inputs)
+				if err != nil {
+					rt.Fatalf("harness: %v", err)
+				}
+				if hung >= 0 {
+					reportHang(h, &Case{Mode: "inputs", Seed: c.Seed, Opts: o, Inputs: c.Inputs[:hung+1]}, c.Inputs[hung])
+				}
+				h.Class("timeout-not-reproduced", 1)
+				p = p2 // the stuck nodes are abandoned
+				mk.f = p.S
+				g.W = p.S.W
+				v, ir = v2, inputResult{}
+			}
 			if survey && v != nil && v.oracle != "harness" {
 				// survey mode (generator development): note the verdict, rebuild the nodes, go on
 				fmt.Printf("\nC18-VERDICT %s | %s\n", v.sig(), v.msg)
@@ -129,6 +150,7 @@ func TestC18Histories(t *testing.T) {
 			blocks++
 			return hist.BlockStep(g.DrawEnv(txs), txs), true
 		})
+		v = historyVerdict(h, c, v)
 		ntKey := ""
 		if blocks >= 8 && okTx >= 5 {
 			b, _ := json.Marshal(tr.Steps)
@@ -143,12 +165,39 @@ func TestC18Histories(t *testing.T) {
 
 // runHistory executes a trace on one replica; every step is journalled before it runs.
 func runHistory(h *run.H, c *Case, draw func(w *hist.World, i int) (hist.Step, bool)) (*verdict, int) {
+	return runHistoryBound(h, c, draw, caseTimeout)
+}
+
+// historyVerdict turns a "timeout" verdict into a reproduced hang (process exit) or an inconclusive note.
+func historyVerdict(h *run.H, c *Case, v *verdict) *verdict {
+	if v == nil || v.oracle != "timeout" {
+		return v
+	}
+	h.Class("timeout-first-run", 1)
+	v2, _ := runHistoryBound(h, c, nil, 2*caseTimeout)
+	if v2 != nil && v2.oracle == "timeout" {
+		msg := "history: " + v2.msg + " (and not within half of that on the first run): the node stops answering"
+		h.WriteFailure("node-hang", "C18/node-hang/history", c, msg)
+		h.Finish()
+		fmt.Fprintln(os.Stderr, "[C18/node-hang] "+msg)
+		os.Exit(1)
+	}
+	h.Class("timeout-not-reproduced", 1)
+	return v2
+}
+
+func runHistoryBound(h *run.H, c *Case, draw func(w *hist.World, i int) (hist.Step, bool), bound time.Duration) (*verdict, int) {
 	tr := c.Trace
 	w, err := hist.NewWorld(tr.Params, tr.Roles)
 	if err != nil {
 		return &verdict{"harness", "world", err.Error()}, 0
 	}
-	defer w.Close()
+	abandoned := false
+	defer func() {
+		if !abandoned {
+			w.Close()
+		}
+	}()
 	if _, err := w.Init(); err != nil {
 		return &verdict{"harness", "init", err.Error()}, 0
 	}
@@ -176,36 +225,55 @@ func runHistory(h *run.H, c *Case, draw func(w *hist.World, i int) (hist.Step, b
 		if st.Kind != "block" {
 			continue
 		}
-		for k, tx := range st.Spec.Txs {
-			ck := R.CheckTx(tx)
+		var sv *verdict
+		if !guarded(bound, func() {
+			for k, tx := range st.Spec.Txs {
+				ck := R.CheckTx(tx)
+				if R.Panicked {
+					sv = &verdict{"node-panic", stepClass(st, k), fmt.Sprintf("history: the application panicked in CheckTx of a %s (tags %v) before block %d", kindOf(st, k), tagsOf(st, k), w.C.Height+1)}
+					return
+				}
+				if passedValidate(ck) {
+					passed++
+				}
+			}
+			b, _ := w.RunBlock(*st.Spec)
 			if R.Panicked {
-				return &verdict{"node-panic", stepClass(st, k), fmt.Sprintf("history: the application panicked in CheckTx of a %s (tags %v) before block %d", kindOf(st, k), tagsOf(st, k), w.C.Height+1)}, passed
+				sv = &verdict{"node-panic", "block:" + R.PanicCall, fmt.Sprintf("history: the application panicked in %s at height %d (kinds %v)", R.PanicCall, b.Height, st.Kinds)}
 			}
-			if passedValidate(ck) {
-				passed++
-			}
+		}) {
+			abandoned = true
+			return &verdict{"timeout", "history", fmt.Sprintf("step %d (kinds %v) did not return within %v", i, st.Kinds, bound)}, passed
 		}
-		b, _ := w.RunBlock(*st.Spec)
-		if R.Panicked {
-			return &verdict{"node-panic", "block:" + R.PanicCall, fmt.Sprintf("history: the application panicked in %s at height %d (kinds %v)", R.PanicCall, b.Height, st.Kinds)}, passed
+		if sv != nil {
+			return sv, passed
 		}
 	}
 	// final probe
 	u := w.G.U.Users
 	pu := u[len(u)-1]
 	tx := txgen.Send(pu, pu.Addr, u[0].Addr, txgen.Amt("OLT", bigOne), w.Fee, "final-probe")
-	ck := R.CheckTx(tx.Bytes)
-	_, res := w.RunBlock(sim.BlockSpec{GapSecs: 5, Txs: [][]byte{tx.Bytes}})
-	if R.Panicked {
-		return &verdict{"node-panic", "final-probe", "history: the final probe made the application panic in " + R.PanicCall}, passed
+	v0 := w.G.U.Vals[0]
+	stk := txgen.Stake(v0, v0.Stake.Addr, txgen.Amt("OLT", bigOne), w.Fee, "final-probe-stake")
+	var pv *verdict
+	if !guarded(bound, func() {
+		R.CheckTx(tx.Bytes)
+		R.CheckTx(stk.Bytes)
+		// the probes' own success depends on what the history did to the accounts; only liveness is judged here
+		w.RunBlock(sim.BlockSpec{GapSecs: 5, Txs: [][]byte{tx.Bytes, stk.Bytes}})
+		if R.Panicked {
+			pv = &verdict{"node-panic", "final-probe", "history: the final probe made the application panic in " + R.PanicCall}
+			return
+		}
+		info := R.Info()
+		if info.LastBlockHeight != w.C.Height {
+			pv = &verdict{"probe-failed", "history", fmt.Sprintf("history: Info reports height %d after block %d", info.LastBlockHeight, w.C.Height)}
+		}
+	}) {
+		abandoned = true
+		return &verdict{"timeout", "history", fmt.Sprintf("the final probe (SEND and STAKE through CheckTx and in a block, Info) did not return within %v", bound)}, passed
 	}
-	info := R.Info()
-	if info.LastBlockHeight != w.C.Height {
-		return &verdict{"probe-failed", "history", fmt.Sprintf("history: Info reports height %d after block %d", info.LastBlockHeight, w.C.Height)}, passed
-	}
-	_ = ck
-	_ = res // the probe's own success depends on what the history did to the account; only liveness is judged here
-	return nil, passed
+	return pv, passed
 }
 
 var bigOne = big.NewInt(1)
@@ -250,6 +318,7 @@ func TestReplay(t *testing.T) {
 		h.WriteFailure("node-died", "C18/node-died/history", &c, "the process died while replaying this history")
 		v, _ := runHistory(h, &c, nil)
 		clearFailure(h)
+		v = historyVerdict(h, &c, v)
 		if v != nil {
 			h.Fail(t, v.oracle, v.sig(), &c, "%s", v.msg)
 		}
@@ -263,12 +332,36 @@ func TestReplay(t *testing.T) {
 	for i, in := range c.Inputs {
 		one := &Case{Mode: "inputs", Seed: c.Seed, Opts: c.Opts, Inputs: c.Inputs[:i+1]}
 		h.WriteFailure("node-died", "C18/node-died/"+classOf(in), one, fmt.Sprintf("the process exited while executing input #%d: %s (tier %s, tags %v)", i, in.Kind, in.Tier, in.Tags))
-		v, _ := p.runInput(in)
+		var v *verdict
+		if !guarded(caseTimeout, func() { v, _ = p.runInput(in) }) {
+			clearFailure(h)
+			_, hung, v2, err := rerunInputs(c.Seed, c.Opts, c.Inputs[:i+1])
+			if err != nil {
+				t.Fatal(err)
+			}
+			if hung >= 0 {
+				reportHang(h, &Case{Mode: "inputs", Seed: c.Seed, Opts: c.Opts, Inputs: c.Inputs[:hung+1]}, c.Inputs[hung])
+			}
+			if v2 != nil {
+				h.Fail(t, v2.oracle, v2.sig(), one, "%s", v2.msg)
+			}
+			t.Skip("a timeout did not reproduce on fresh nodes: inconclusive, not a violation")
+		}
 		clearFailure(h)
 		if v != nil {
 			h.Fail(t, v.oracle, v.sig(), one, "%s", v.msg)
 		}
 	}
+}
+
+// reportHang records a reproduced hang and ends the process (the stuck goroutines cannot be stopped, and
+// rapid must not try to shrink a hanging case).
+func reportHang(h *run.H, c *Case, in Input) {
+	msg := fmt.Sprintf("after a %s input (tier %s, tags %v) the node stops answering: the calls for the input and the probe (SEND and a staking transaction through CheckTx and in a block, Info) did not return within %v, and again not within %v on fresh nodes", in.Kind, in.Tier, in.Tags, caseTimeout, 2*caseTimeout)
+	h.WriteFailure("node-hang", "C18/node-hang/"+classOf(in), c, msg)
+	h.Finish()
+	fmt.Fprintln(os.Stderr, "[C18/node-hang] "+msg)
+	os.Exit(1)
 }
 
 func clearFailure(h *run.H) {
